@@ -780,6 +780,9 @@ class AECDHKeyExchange(KeyExchange):
                 ExtensionType.ec_point_formats)
             ext_s = self.serverHello.getExtension(
                 ExtensionType.ec_point_formats)
+            if ext_s and not ext_s.formats:
+                raise TLSDecodeError("Empty ec_point_formats extension in "
+                                     "Server Hello")
             if ext_c and ext_s:
                 try:
                     ext_supported = [
